@@ -52,10 +52,16 @@ def step (st : St) (op implObs : String) : St × String × List String × List S
     let (m', o) := st.model.reload text
     let rules := rulesOf text
     let implOk := implObs.startsWith "ok:"
+    -- the outcome `load_semantics` prescribes, computed from the declarative reading of the text
+    let want :=
+      if tooLong text then "err:toolong"
+      else if rules.isEmpty ∧ hasMalformed text then "err:novalid"
+      else s!"ok:{rules.length}"
     let viol :=
       if implOk ∧ implObs ≠ s!"ok:{rules.length}" then
         [s!"C18 reload-count impl={implObs} want=ok:{rules.length}"]
       else if implObs.startsWith "panic" then ["C18 reload-panic"]
+      else if implObs ≠ want then [s!"C18 reload-outcome impl={implObs} want={want}"]
       else []
     let tags :=
       (if hasMalformed text then ["branch:malformed-line"] else []) ++
